@@ -533,6 +533,7 @@ type FuncSpec struct {
 	NoOverflow bool
 	OnErrorUnchanged []Expr
 	Carries  []*CarrySpec
+	FieldCover []*FieldCoverSpec
 	Pure     bool
 	Unfold   int // loop unrolling for constant loops (0 = none)
 	Opaque   []string // callees to treat as havoc even if contracted
@@ -546,6 +547,14 @@ type CarrySpec struct {
 	Except   map[string]string // field -> reason (checked elsewhere / intentionally dropped)
 	Shared   map[string]string // reference fields that may alias the source, with reason
 	Src0     string
+}
+
+// FieldCoverSpec: syntactic structural completeness: every field of a struct is read from a parameter
+// (encoders) or written in values of a type (decoders), except those listed with a reason.
+type FieldCoverSpec struct {
+	Writes bool
+	Target string // parameter name (reads) or type name (writes)
+	Except map[string]string
 }
 
 type SpecFunc struct {
@@ -954,6 +963,25 @@ func parseContractFile(path, pkgPath string) (*SpecFile, error) {
 				cs.Shared[strings.TrimSpace(name)] = reason
 			}
 			cur.Carries = append(cur.Carries, cs)
+		case "reads_all", "writes_all":
+			if cur == nil {
+				return nil, fail(fmt.Errorf("%s outside func", kw))
+			}
+			fc := &FieldCoverSpec{Writes: kw == "writes_all", Except: map[string]string{}}
+			body := rest
+			if i := strings.Index(body, " except "); i >= 0 {
+				for _, it := range splitTop(body[i+8:], ',') {
+					it = strings.TrimSpace(it)
+					name, reason := it, ""
+					if j := strings.Index(it, "("); j > 0 {
+						name, reason = it[:j], strings.TrimSuffix(it[j+1:], ")")
+					}
+					fc.Except[strings.TrimSpace(name)] = reason
+				}
+				body = body[:i]
+			}
+			fc.Target = strings.TrimSpace(body)
+			cur.FieldCover = append(cur.FieldCover, fc)
 		case "unroll":
 			if cur != nil {
 				cur.Unfold, _ = strconv.Atoi(strings.TrimSpace(rest))
